@@ -287,6 +287,7 @@ func newBackend() *rawBackend {
 	if err != nil {
 		panic(err)
 	}
+	stack.OwnPort(ln.Addr().String())
 	b := &rawBackend{ln: ln, addr: ln.Addr().String()}
 	go func() {
 		for {
